@@ -7,12 +7,12 @@ namespace Mhd.Tmo
 open Mhd.Gen.Tmo
 
 theorem travSel_complete_all (v : Variant) (hsp : v.savePrev = true) (rs : List Id) :
-    ∀ (l : List Id) (d : Daemon) (i : Id), l.Nodup → i ∈ l → (d.c i).closed = false →
+    ∀ (l : List Id) (d : Daemon) (i : Id), l.Nodup → i ∈ l → (d.c i).closed = false → (d.c i).replying = false →
     (rs.contains i = false ∨ ((d.c i).unread = false ∧ (d.c i).peerClosed = false)) →
     checkTimedOut d.now (d.c i) = true →
     Event.tmoClose i (d.c i).aware ∈ (travSel v rs l d).2
-  | [], _, _, _, hi, _, _, _ => absurd hi List.not_mem_nil
-  | j :: rest, d, i, hnd, hi, hc, hq, ht => by
+  | [], _, _, _, hi, _, _, _, _ => absurd hi List.not_mem_nil
+  | j :: rest, d, i, hnd, hi, hc, hr, hq, ht => by
     unfold travSel
     dsimp only
     have hnd' := List.nodup_cons.1 hnd
@@ -28,8 +28,8 @@ theorem travSel_complete_all (v : Variant) (hsp : v.savePrev = true) (rs : List 
         rcases hq with q | q
         · have hnr : i ∉ rs := by
             intro hm; rw [List.contains_iff_mem.2 hm] at q; cases q
-          simp [hc, hnr]
-        · simp [hc, q.1, q.2]
+          simp [hc, hnr, hr]
+        · simp [hc, q.1, q.2, hr]
       have hev : (callHandlersSel v d i (rs.contains i)).2 = (handleIdleP d i).2 := by
         unfold callHandlersSel; rw [hcall]
       rw [hev]
@@ -39,13 +39,13 @@ theorem travSel_complete_all (v : Variant) (hsp : v.savePrev = true) (rs : List 
       have hnow : (callHandlersSel v d j (rs.contains j)).1.now = d.now := o.2.2.2.1.1
       have hrec : (callHandlersSel v d j (rs.contains j)).1.c i = d.c i := (o.2.2.2.2 i hij).2.2.2
       have := travSel_complete_all v hsp rs rest (callHandlersSel v d j (rs.contains j)).1 i hnd'.2 e
-        (by rw [hrec]; exact hc) (by rw [hrec]; exact hq) (by rw [hrec, hnow]; exact ht)
+        (by rw [hrec]; exact hc) (by rw [hrec]; exact hr) (by rw [hrec]; exact hq) (by rw [hrec, hnow]; exact ht)
       rw [hrec] at this
       exact List.mem_append_right _ this
 
 theorem roundSelect_complete {v : Variant} (hv : Fixed v) (hsp : v.savePrev = true) {d : Daemon} (h : Inv d)
     (i : Id) (hi : i ∈ d.conns) (hc : (d.c i).closed = false)
-    (hq : (d.c i).unread = false ∧ (d.c i).peerClosed = false)
+    (hq : (d.c i).unread = false ∧ (d.c i).peerClosed = false) (hr : (d.c i).replying = false)
     (ht : checkTimedOut d.now (d.c i) = true) :
     Event.tmoClose i (d.c i).aware ∈ (roundSelect v d).2 := by
   let d1 := if d.cfg.allowSuspend then resumeSuspended v d else d
@@ -68,8 +68,8 @@ theorem roundSelect_complete {v : Variant} (hv : Fixed v) (hsp : v.savePrev = tr
       have := (List.mem_filter.1 (List.contains_iff_mem.1 hx)).2
       simp [hq.1, hq.2] at this
   have := travSel_complete_all v hsp _ d3.conns.reverse d3 i (nodup_reverse' h3.ndConns)
-    (List.mem_reverse.2 (n3 hi)) hc3 (Or.inl hnr) ht3
-  rw [n4.2.2.2.2] at this
+    (List.mem_reverse.2 (n3 hi)) hc3 (by rw [n4.2.2.2.2.2]; exact hr) (Or.inl hnr) ht3
+  rw [n4.2.2.2.2.1] at this
   unfold roundSelect
   simp only [seq2_events, List.mem_append]
   left; right; exact this
